@@ -46,12 +46,12 @@ Lemma P_register fx ops n cb ctor dtor : fx_reg fx = true ->
 Proof.
   intros Hfx s s'. subst s'. pose proof (reached_RegInv fx ops Hfx) as Hinv. fold s in Hinv.
   cbn [step]. rewrite Hfx, register_fixed, has_name_find.
-  unfold lookup at 1 2. destruct (find_name n (s_reg s)) as [e0|] eqn:F; cbn [fst snd].
-  - split; [discriminate|]. destruct s; reflexivity.
+  destruct (find_name n (s_reg s)) as [e0|] eqn:F; cbn [fst snd].
+  - split; [unfold lookup; rewrite F; discriminate|]. destruct s; reflexivity.
   - cbv zeta. cbn [fst snd s_reg s_cl cl_find]. rewrite Nat.eqb_refl.
     assert (Hnone : forall y, In y (s_reg s) -> (e_name y =? n) = false).
     { intros y Hy. unfold find_name in F. eapply find_none in F; eauto. }
-    split; [reflexivity|]. split; [intros e He; now apply mex_fresh; [apply (ri_incr _ Hinv)|]|].
+    split; [unfold lookup; now rewrite F|]. split; [intros e He; now apply mex_fresh; [apply (ri_incr _ Hinv)|]|].
     split; [now rewrite (lookup_insert_new _ _ {| e_iid := _; e_name := n; e_cb := cb |})|].
     split; [reflexivity|]. intros m Hm. apply lookup_insert_other. cbn. congruence.
 Qed.
@@ -185,44 +185,49 @@ Definition touches (a n : nat) (o : op) : bool :=
 Definition holds (p : spec) (a n : nat) (v : N) : Prop :=
   (a <? p_narr p) && p_alive p a = true /\ p_info p n <> None /\ p_val p a n = v.
 
+Lemma holds_intro q a n v : (a <? p_narr q) = true -> p_alive q a = true -> p_info q n <> None ->
+  p_val q a n = v -> holds q a n v.
+Proof. intros H1 H2 H3 H4. unfold holds. rewrite H1, H2. auto. Qed.
+
 Lemma spec_step_keeps p a n v o : v <> 0%N -> holds p a n v -> touches a n o = false ->
   holds (fst (spec_step p o)) a n v.
 Proof.
-  intros Hv (Hg & Hi & Hval) Ht. unfold holds.
-  apply Bool.andb_true_iff in Hg. destruct Hg as [Hlt Hal]. apply Nat.ltb_lt in Hlt.
+  intros Hv (Hg & Hi & Hval) Ht.
+  apply Bool.andb_true_iff in Hg. destruct Hg as [Hlt Hal].
+  assert (Hsame : holds p a n v) by (now apply holds_intro).
   destruct o as [m cb ctor dtor|m|i|m| |b|b m w|b m|b m w old]; cbn [spec_step touches] in *.
-  - destruct (p_info p m) eqn:E; cbn [fst p_info p_narr p_alive p_val].
-    + rewrite Hal. apply Nat.ltb_lt in Hlt. rewrite Hlt. auto.
-    + rewrite Hal. destruct (n =? m) eqn:E2; [apply Nat.eqb_eq in E2; subst m; congruence|].
-      apply Nat.ltb_lt in Hlt. rewrite Hlt. auto.
-  - destruct (p_info p m) as [[[cb ct] dt]|] eqn:E; cbn [fst p_info p_narr p_alive p_val].
-    + rewrite Nat.eqb_sym, Ht, Hal. apply Nat.ltb_lt in Hlt. rewrite Hlt. auto.
-    + rewrite Hal. apply Nat.ltb_lt in Hlt. rewrite Hlt. auto.
-  - cbn [fst]. rewrite Hal. apply Nat.ltb_lt in Hlt. rewrite Hlt. auto.
-  - cbn [fst]. rewrite Hal. apply Nat.ltb_lt in Hlt. rewrite Hlt. auto.
-  - cbn [fst p_info p_narr p_alive p_val].
-    destruct (a =? p_narr p) eqn:E; [apply Nat.eqb_eq in E; lia|]. rewrite Hal.
-    assert (a <? S (p_narr p) = true) by (apply Nat.ltb_lt; lia). rewrite H. auto.
-  - destruct ((b <? p_narr p) && p_alive p b); cbn [fst p_info p_narr p_alive p_val].
-    + rewrite Nat.eqb_sym, Ht, Hal. apply Nat.ltb_lt in Hlt. rewrite Hlt. auto.
-    + rewrite Hal. apply Nat.ltb_lt in Hlt. rewrite Hlt. auto.
-  - unfold spec_slot. destruct ((b <? p_narr p) && p_alive p b); [|cbn; rewrite Hal; apply Nat.ltb_lt in Hlt; rewrite Hlt; auto].
-    destruct (p_info p m); cbn [fst with_val p_info p_narr p_alive p_val]; rewrite Hal; apply Nat.ltb_lt in Hlt; rewrite Hlt; [|auto].
-    unfold upd2. rewrite (Nat.eqb_sym a b), (Nat.eqb_sym n m), Ht. auto.
-  - unfold spec_slot. destruct ((b <? p_narr p) && p_alive p b) eqn:G; [|cbn; rewrite Hal; apply Nat.ltb_lt in Hlt; rewrite Hlt; auto].
-    destruct (p_info p m) as [[[cb ct] dt]|]; [|cbn; rewrite Hal; apply Nat.ltb_lt in Hlt; rewrite Hlt; auto].
-    destruct (negb (p_val p b m =? 0)%N) eqn:Ez; [cbn; rewrite Hal; apply Nat.ltb_lt in Hlt; rewrite Hlt; auto|].
-    destruct (ct =? 0)%N; [cbn; rewrite Hal; apply Nat.ltb_lt in Hlt; rewrite Hlt; auto|].
-    destruct (ctorval ct (S b) =? 0)%N; [cbn; rewrite Hal; apply Nat.ltb_lt in Hlt; rewrite Hlt; auto|].
-    cbn [fst with_val p_info p_narr p_alive p_val]. rewrite Hal. apply Nat.ltb_lt in Hlt. rewrite Hlt.
-    split; [reflexivity|]. split; [exact Hi|]. unfold upd2.
+  - destruct (p_info p m) eqn:E; cbn [fst]; [exact Hsame|].
+    apply holds_intro; cbn [p_info p_narr p_alive p_val]; auto.
+    destruct (n =? m); [discriminate|exact Hi].
+  - destruct (p_info p m) as [[[cb ct] dt]|] eqn:E; cbn [fst]; [|exact Hsame].
+    apply holds_intro; cbn [p_info p_narr p_alive p_val]; auto; rewrite Nat.eqb_sym, Ht; auto.
+  - exact Hsame.
+  - exact Hsame.
+  - cbn [fst]. apply Nat.ltb_lt in Hlt.
+    apply holds_intro; cbn [p_info p_narr p_alive p_val]; auto.
+    + apply Nat.ltb_lt. lia.
+    + destruct (a =? p_narr p) eqn:E; [reflexivity|exact Hal].
+    + destruct (a =? p_narr p) eqn:E; [apply Nat.eqb_eq in E; lia|exact Hval].
+  - destruct ((b <? p_narr p) && p_alive p b); cbn [fst]; [|exact Hsame].
+    apply holds_intro; cbn [p_info p_narr p_alive p_val]; auto. now rewrite Nat.eqb_sym, Ht.
+  - unfold spec_slot. destruct ((b <? p_narr p) && p_alive p b); [|exact Hsame].
+    destruct (p_info p m); cbn [fst]; [|exact Hsame].
+    apply holds_intro; cbn [with_val p_info p_narr p_alive p_val]; auto.
+    unfold upd2. now rewrite (Nat.eqb_sym a b), (Nat.eqb_sym n m), Ht.
+  - unfold spec_slot. destruct ((b <? p_narr p) && p_alive p b) eqn:G; [|exact Hsame].
+    destruct (p_info p m) as [[[cb ct] dt]|]; [|exact Hsame].
+    destruct (negb (p_val p b m =? 0)%N) eqn:Ez; [exact Hsame|].
+    destruct (ct =? 0)%N; [exact Hsame|].
+    destruct (ctorval ct (S b) =? 0)%N; [exact Hsame|]. cbn [fst].
+    apply holds_intro; cbn [with_val p_info p_narr p_alive p_val]; auto. unfold upd2.
     destruct ((a =? b) && (n =? m)) eqn:E; [|exact Hval].
     apply Bool.andb_true_iff in E. destruct E as [E1 E2]. apply Nat.eqb_eq in E1, E2. subst b m.
     apply Bool.negb_false_iff, N.eqb_eq in Ez. congruence.
-  - unfold spec_slot. destruct ((b <? p_narr p) && p_alive p b); [|cbn; rewrite Hal; apply Nat.ltb_lt in Hlt; rewrite Hlt; auto].
-    destruct (p_info p m); [|cbn; rewrite Hal; apply Nat.ltb_lt in Hlt; rewrite Hlt; auto].
-    destruct (p_val p b m =? old)%N; cbn [fst with_val p_info p_narr p_alive p_val]; rewrite Hal; apply Nat.ltb_lt in Hlt; rewrite Hlt; [|auto].
-    unfold upd2. rewrite (Nat.eqb_sym a b), (Nat.eqb_sym n m), Ht. auto.
+  - unfold spec_slot. destruct ((b <? p_narr p) && p_alive p b); [|exact Hsame].
+    destruct (p_info p m); [|exact Hsame].
+    destruct (p_val p b m =? old)%N; cbn [fst]; [|exact Hsame].
+    apply holds_intro; cbn [with_val p_info p_narr p_alive p_val]; auto.
+    unfold upd2. now rewrite (Nat.eqb_sym a b), (Nat.eqb_sym n m), Ht.
 Qed.
 
 Lemma spec_exec_keeps ops : forall p a n v, v <> 0%N -> holds p a n v ->
@@ -240,9 +245,9 @@ Proof.
 Qed.
 
 Lemma erase_get_val a n r v c ev : erase (GetV a n) r = EVal v c ev -> r = RVal v c ev.
-Proof. destruct r as [o|o d|o| | |v' c' ev'| | |]; cbn; try discriminate; try (destruct o; discriminate).
-  - destruct o as [[? ?]|]; discriminate.
-  - intros H; inversion H; reflexivity.
+Proof.
+  destruct r as [[i|]|[i|] d|[[i cb]|]| | |v' c' ev'| | |]; cbn; try discriminate.
+  intros H; inversion H; reflexivity.
 Qed.
 
 (* once (a, n) holds v in the dictionary related to s, any untouched continuation reads it back *)
